@@ -3,7 +3,9 @@ package fix
 import (
 	"fmt"
 	"os"
+	"path/filepath"
 	"runtime"
+	"strings"
 	"sync"
 	"sync/atomic"
 	"time"
@@ -30,8 +32,68 @@ var (
 		prop, sub, summary string
 		kase               any
 	}
+	last        = tracked // the most recent registered case (kept after it ends)
 	monitorOnce sync.Once
 )
+
+// Orphans counts goroutines that library code started (their outermost frame
+// is a library function), that are parked on a channel or lock operation, and
+// that look the same in two dumps 300 ms apart.  Between two cases of a
+// sequential sub-check nothing of the library is running, so every such
+// goroutine was left behind by an earlier call.
+func Orphans() (int, string) {
+	buf := make([]byte, 8<<20)
+	a := parseDump(string(buf[:runtime.Stack(buf, true)]))
+	time.Sleep(300 * time.Millisecond)
+	b := parseDump(string(buf[:runtime.Stack(buf, true)]))
+	n, sample := 0, ""
+	for id, g := range b {
+		if len(g.funcs) == 0 || !isLibrary(g.funcs[len(g.funcs)-1]) {
+			continue
+		}
+		parked := false
+		for _, st := range parkedStates {
+			if strings.HasPrefix(g.state, st) {
+				parked = true
+			}
+		}
+		prev, ok := a[id]
+		if !parked || !ok || strings.Join(prev.funcs, "\n") != strings.Join(g.funcs, "\n") {
+			continue
+		}
+		n++
+		if sample == "" {
+			sample = g.text
+		}
+	}
+	return n, sample
+}
+
+// orphanLimit: more library-started goroutines than this, left parked after a
+// case has ended, is reported (the unchanged tree leaves none).
+const orphanLimit = 24
+
+// leakAfterCase is called by Check after every case of a sub-check.
+func leakAfterCase(rt interface{ Fatalf(string, ...any) }, sub string, baseline int) {
+	if runtime.NumGoroutine() < baseline+orphanLimit {
+		return
+	}
+	n, sample := Orphans()
+	if n < orphanLimit {
+		return
+	}
+	trackMu.Lock()
+	l := last
+	trackMu.Unlock()
+	err := fmt.Errorf("%d goroutines started by the library are still parked after the calls that started them have returned (they accumulated over the cases of this sub-check; the case below is the last one run), e.g.:\n%s", n, clip(sample, 1500))
+	if l.kase != nil && l.prop != "" {
+		p := evid.WriteCase(l.prop, l.sub, l.kase, l.summary, err)
+		rt.Fatalf("property %s/%s violated: %v\nreplay file: %s", l.prop, l.sub, err, p)
+	}
+	prop := strings.ToUpper(strings.TrimSuffix(filepath.Base(os.Args[0]), ".test")) // c04.test -> C04
+	p := evid.WriteCase(prop, sub, struct{ Note string }{"goroutine leak"}, "goroutines left behind", err)
+	rt.Fatalf("property %s/%s violated: %v\nreplay file: %s", prop, sub, err, p)
+}
 
 func callEnter() { activeCalls.Add(1); lastEvent.Store(time.Now().UnixNano()) }
 func callExit()  { activeCalls.Add(-1); lastEvent.Store(time.Now().UnixNano()) }
@@ -41,6 +103,7 @@ func callExit()  { activeCalls.Add(-1); lastEvent.Store(time.Now().UnixNano()) }
 func Track(prop, sub string, kase any, summary string) func() {
 	trackMu.Lock()
 	tracked.prop, tracked.sub, tracked.kase, tracked.summary = prop, sub, kase, summary
+	last = tracked
 	trackMu.Unlock()
 	return func() {
 		trackMu.Lock()
